@@ -77,9 +77,24 @@ def rollback_rules(rep, prog, C, fams, r22, r23, names=("add_impl", "update_impl
             rep.ob(r22, "rollback-closure|%s" % name, False, "no rollback closure (index-mutating closure invoked only on error edges) found", f.file + ":%d" % f.line)
             continue
         rb = fam_ops(prog, [rollback[0][0]] + prog.closures_of(rollback[0][0]), fams)
+        # forward operations that run only after the acknowledged document write release what the document no longer holds
+        # (the two-phase protocol: claim, write, release); there is nothing to roll back for them
+        from .c01 import path_class as _pc2
+        wr2 = [e for e in f.calls_named(r"^anda_db::storage::Storage::(put|put_bytes|delete|create)$") if "fn:doc_path" in _pc2(prog, f, e)]
+        okw2 = set()
+        for w_ in wr2:
+            okw2 |= set(f.result_edges(w_)[0])
+
+        def _post_commit(e):
+            return e.fn is f and bool(okw2) and (any(f.dominates(t, e.block) for t in okw2) or valueflow.must_pass_ps(f, okw2, [e.block]))
         for fam in sorted(fams):
-            fo = {op for op, _ in fwd.get(fam, ()) if op in MUT_OPS}
+            fo = {op for op, e_ in fwd.get(fam, ()) if op in MUT_OPS and not _post_commit(e_)}
             ro = {op for op, _ in rb.get(fam, ()) if op in MUT_OPS}
+            if "update" in ro:
+                ro = ro | {"insert", "remove"}      # update(new -> old) re-asserts the old value and removes the new one
+            if not fo and any(op in MUT_OPS for op, _ in fwd.get(fam, ())):
+                rep.ob(r22, "inverse|%s|%s" % (name, fam), True, "the family is only released after the acknowledged write: nothing to roll back", f.file + ":%d" % f.line)
+                continue
             need = {inv[o] for o in fo if inv.get(o)}
             rep.ob(r22, "inverse|%s|%s" % (name, fam), bool(fo) and need <= ro,
                    "forward ops %s on %s need rollback ops %s, rollback closure has %s" % (sorted(fo), fam, sorted(need), sorted(ro)),
@@ -213,6 +228,26 @@ def run(rep, tier):
             kinds[fam] = {("remove" if op == "purge_ids" else ("insert+remove" if op == "update" else op)) for op in ops}
         flat = {fam: ("insert" in k or "insert+remove" in k, "remove" in k or "insert+remove" in k) for fam, k in kinds.items()
                 if k & {"insert", "remove", "insert+remove"}}
+        if len(flat) == len(fams) and len(set(flat.values())) != 1:
+            # tolerated asymmetry: the odd family lacks only the *restoring* direction, and all its calls in this function come after
+            # the acknowledged document write (its values are released post-commit, so there is nothing to roll back for it)
+            from .c01 import path_class as _pc
+            wr_ = [e for e in f.calls_named(r"^anda_db::storage::Storage::(put|put_bytes|delete|create)$") if "fn:doc_path" in _pc(prog, f, e)]
+            okw_ = set()
+            for w_ in wr_:
+                okw_ |= set(f.result_edges(w_)[0])
+            full = max(flat.values(), key=lambda v: (v[0] + v[1]))
+            odd = [fam for fam, v in flat.items() if v != full]
+            post = True
+            for fam in odd:
+                for (op, e) in fam_ops(prog, [f], fams).get(fam, ()):
+                    if op in MUT_OPS and e.kind == "call" and e.fn is f and not (okw_ and (
+                            any(f.dominates(t, e.block) for t in okw_) or valueflow.must_pass_ps(f, okw_, [e.block]))):
+                        post = False        # (path-sensitive: the write is skipped only when there is no document, and then nothing is released)
+                if any(op in MUT_OPS for c_ in prog.closures_of(f) for (op, e) in fam_ops(prog, [c_], fams).get(fam, ())):
+                    post = False
+            if post and okw_:
+                flat = {fam: full for fam in flat}
         if len(flat) == len(fams):
             rep.ob("R02.1", "same-ops|%s" % name, len(set(flat.values())) == 1,
                    "families are maintained asymmetrically in %s: %s" % (name, {k: sorted(v) for k, v in kinds.items()}), f.file + ":%d" % f.line)
